@@ -127,7 +127,7 @@ func TestVerifC15E2E(t *testing.T) {
 	c.Assume("the differing transaction changes the block hash, so the comparison holds the block hash fixed (X's); SHA-512/256 does not collide on the generated inputs")
 	hlRegisterProtos()
 	classes := []string{"boundary-shift", "box-value-byte", "boundary-shift", "account-balance", "box-name-byte", "asset-holding", "boundary-shift", "global-state-value", "local-state-value", "boundary-shift"}
-	n := c.N(10, 60)
+	n := c.N(12, 60)
 	for i := 0; i < n && c.Violations() < 5; i++ {
 		class := classes[i%len(classes)]
 		cr := c.Rand(15, uint64(i), 99)
@@ -145,10 +145,13 @@ func TestVerifC15E2E(t *testing.T) {
 		}
 		p := config.Consensus[cfg.Proto]
 		lb := cpLookback(p)
-		mk := func() *c15Side {
-			return &c15Side{s: hlNewSim(t, c, c.Rand(15, uint64(i)), cfg), stages: map[basics.Round]trackerdb.CatchpointFirstStageInfo{}, labels: map[basics.Round]string{}}
+		X := &c15Side{s: hlNewSim(t, c, c.Rand(15, uint64(i)), cfg), stages: map[basics.Round]trackerdb.CatchpointFirstStageInfo{}, labels: map[basics.Round]string{}}
+		Y := &c15Side{s: cpCloneSim(X.s, "c15-y"), stages: map[basics.Round]trackerdb.CatchpointFirstStageInfo{}, labels: map[basics.Round]string{}}
+		for _, s := range []*c15Side{X, Y} {
+			// the scripted part needs its accounts alive and not rekeyed
+			s.s.g.weights["rekey"] = 0
+			s.s.g.weights["payclose"] = 0
 		}
-		X, Y := mk(), mk()
 		both := func(f func(s *c15Side) error) bool {
 			for _, s := range []*c15Side{X, Y} {
 				if err := f(s); err != nil {
@@ -262,7 +265,12 @@ func TestVerifC15E2E(t *testing.T) {
 			same := []*txntest.Txn{{Type: protocol.PaymentTx, Sender: u.keyed[10], Receiver: u.keyed[11], Amount: 12345}}
 			prefixEqual := X.s.m.hdrs[X.s.m.latest].Hash() == Y.s.m.hdrs[Y.s.m.latest].Hash()
 			if !prefixEqual {
-				c.Harness("case %d: the two ledgers' histories differ before the differing block (generator not deterministic?)", i)
+				for rr := basics.Round(0); rr <= X.s.m.latest; rr++ {
+					if X.s.m.hdrs[rr].Hash() != Y.s.m.hdrs[rr].Hash() {
+						o := kit.FPOptions{NilEqualsEmpty: true}
+						c.Harness("case %d: the two ledgers' histories differ at round %d before the differing block (generator not deterministic?)\nX: %s\nY: %s", i, rr, kit.Describe(X.s.m.hdrs[rr], o), kit.Describe(Y.s.m.hdrs[rr], o))
+					}
+				}
 			}
 			if err := X.block(same, gx); err != nil {
 				c.Count("c15e2e.case_unusable", 1)
